@@ -244,6 +244,8 @@ def _near_width_boundaries(ctx):
 
 
 def run(ctx):
+    from props.c08 import _replay_f15
+    _replay_f15(ctx, "history", "raised")
     _run_main(ctx)
     _near_width_boundaries(ctx)
     # history independence: the same call on a live graph object with a history of edits / calls and on a twin rebuilt
